@@ -2,7 +2,7 @@
 #define HX_HAS_ROTATION 0
 #include "generic.h"
 namespace hx {
-using B_b07 = manif::Bundle<double, manif::SO3, manif::SE2, manif::R5, manif::SO3>;
+using B_b07 = manif::Bundle<HX_SC, manif::SO3, manif::SE2, manif::R5, manif::SO3>;
 template <> struct Extra<B_b07> {
   static bool run(const Req& r, Resp& R) {
     // element<i>() views alias exactly the i-th element's coefficients
